@@ -15,6 +15,7 @@ import (
 	"log"
 	"net"
 	"os"
+	"strconv"
 	"strings"
 	"sync"
 	"sync/atomic"
@@ -685,17 +686,21 @@ func (pm *Portmapper) handleRpcbSet(r io.Reader) []byte {
 		prot = IPPROTO_UDP
 	}
 
-	// Parse port from uaddr
-	if uaddr != "" {
-		var a, b, c, d, hi, lo int
-		if _, err := fmt.Sscanf(uaddr, "%d.%d.%d.%d.%d.%d", &a, &b, &c, &d, &hi, &lo); err == nil {
+	// Parse port from uaddr: the last two dot-separated fields are the high and
+	// low byte of the port, for IPv4 ("127.0.0.1.8.1") and IPv6 ("::1.8.1") alike.
+	if parts := strings.Split(uaddr, "."); len(parts) >= 3 {
+		hi, errHi := strconv.Atoi(parts[len(parts)-2])
+		lo, errLo := strconv.Atoi(parts[len(parts)-1])
+		if errHi == nil && errLo == nil && hi >= 0 && hi <= 255 && lo >= 0 && lo <= 255 {
 			port = uint32(hi*256 + lo)
 		}
 	}
 
-	if port > 0 {
-		pm.RegisterService(prog, vers, prot, port)
+	if port == 0 {
+		// nothing was registered, so the caller must not be told it was
+		return pm.encodeBool(false)
 	}
+	pm.RegisterService(prog, vers, prot, port)
 
 	return pm.encodeBool(true)
 }
